@@ -35,7 +35,9 @@ var methTS = map[string]mTS{"Add": (*tensor.Dense).AddScalar, "Sub": (*tensor.De
 
 // OPSH are the op-matrix shapes.
 var OPSH = [][]int{{}, {1}, {3}, {1, 3}, {3, 1}, {1, 1}, {2, 3}, {3, 2}, {2, 1, 3}, {2, 3, 2}, {1, 1, 1}, {2, 2, 2, 2}, {2, 1, 2, 3}}
-var OPSHX = [][]int{{4, 3}, {3, 3, 3}, {2, 3, 2, 2}, {5}, {1, 5}}
+
+// (lengths on both sides of the widths the vectorised kernels unroll by: 8, 16, 32)
+var OPSHX = [][]int{{4, 3}, {3, 3, 3}, {2, 3, 2, 2}, {5}, {1, 5}, {8}, {17}, {33}, {4, 9}}
 
 func edgeVals(d ref.DT) []interface{} {
 	switch d.Class {
@@ -765,6 +767,15 @@ func ewExec(r *core.Run, c ewCase) (*core.Fail, string) {
 	}
 	if kfDivZero {
 		return core.F("wrong-value[KF:vecf-div-zero]", "dz", "float division by a zero divisor yields +Inf regardless of the signs / 0/0 (contiguous kernel); all other elements are correct. got %s", ref.FmtEls(got)), o.Class
+	}
+	// a result with the right elements is also a well-formed tensor (C13's invariant) - a later operation relies on it
+	if rd, ok := res.(*tensor.Dense); ok && rd != nil {
+		if msg := atlas.MetaInvariant(rd); msg != "" {
+			return core.F("invariant-violated", "meta", "the result has the right elements but %s", msg), o.Class
+		}
+		if msg := atlas.OrderInvariant(rd); msg != "" {
+			return core.F("invariant-violated", "order", "the result has the right elements but %s", msg), o.Class
+		}
 	}
 	return nil, o.Class
 }
